@@ -121,6 +121,16 @@ impl<S> MemCase<S> {
     }
 }
 
+#[cfg(epserde_verif)]
+impl<S> MemCase<S> {
+    /// Verification hook (only with `--cfg epserde_verif`): the address and
+    /// length of the backing region owned by this [`MemCase`], or `None` for
+    /// the [`None`](MemBackend::None) backend.
+    pub fn verif_backend_range(&self) -> Option<(*const u8, usize)> {
+        self.1.as_ref().map(|b| (b.as_ptr(), b.len()))
+    }
+}
+
 unsafe impl<S: Send> Send for MemCase<S> {}
 unsafe impl<S: Sync> Sync for MemCase<S> {}
 
